@@ -66,9 +66,37 @@ def inputs(rep: Report, t: str, rng: random.Random) -> List[Tuple[str, str, dict
     for case in shapes.shape_cases(rep, t):
         src, opts = shapes.render_case(case)
         items.append((f"shape:{case['c']}:{case['pos']}:{'nl' if case['nl'] else 'nonl'}:{case['opt']}", src, opts))
+    # the same shapes followed by lines whose characters take 2-4 bytes: offsets computed from byte columns of one line
+    # must not be applied to another
+    tails = ["# \u65e5\u672c\u8a9e\u306e\u30b3\u30e1\u30f3\u30c8\u3067\u3059\u3002\u65e5\u672c\u8a9e\u306e\u30b3\u30e1\u30f3\u30c8\n",
+             "s='\u20acuro\u20ac\u20ac \U0001F600\U0001F600'\n", "\u00e9t\u00e9 = '\u00e9'  # \u00e9\u00e9\u00e9\u00e9\u00e9\u00e9\u00e9\u00e9\u00e9\u00e9\n"]
+    shaped = [it for it in items if it[0].split(":")[2] in ("in_def", "in_loop", "tail_of_if", "in_class", "only") and it[0].split(":")[3] == "nl"]
+    for key, src, opts in (shaped if t != "quick" else rng.sample(shaped, min(400, len(shaped)))):
+        items.append((key + ":nonascii-tail", src + rng.choice(tails), opts))
     snippets = list(corpus.repo_snippets())
     for origin, text in snippets:
         items.append((f"snippet:{origin}", text, {}))
+    import ast as _ast
+    for origin, text in (snippets if t != "quick" else rng.sample(snippets, 350)):
+        if not (text.endswith("\n") and text.isascii()):
+            continue
+        items.append((f"snippet-nonascii-tail:{origin}", text + rng.choice(tails), {}))
+        # ... and directly behind an indented block (the line an insertion after that block is computed from)
+        try:
+            body = _ast.parse(text).body
+        except SyntaxError:
+            continue
+        lines = text.splitlines(keepends=True)
+        ends = [st.end_lineno for st in body if hasattr(st, "body") and st.end_lineno < len(lines)]
+        for end in rng.sample(ends, min(2, len(ends))):
+            items.append((f"snippet-nonascii-after-block:{origin}:{end}", "".join(lines[:end]) + rng.choice(tails) + "".join(lines[end:]), {}))
+    # every construct as the LAST statement of a function, the next line being a column-0 line with multi-byte characters
+    for name, (need, text) in sorted(shapes.CATALOGUE.items()):
+        if need not in ("none", "def"):
+            continue
+        for ti, tail in enumerate(tails):
+            src = "def enclosing(cond=True, flag=False):\n" + textwrap.indent(text, "    ") + "\n" + tail + "print(enclosing())\n"
+            items.append((f"shape:{name}:last_in_def_then_nonascii:{ti}", src, {}))
     extra = snippets if t != "quick" else rng.sample(snippets, 250)
     for origin, text in extra:
         items.append((f"snippet-safe:{origin}", text, {"safe": True, "keep_imports": True}))
